@@ -160,3 +160,80 @@ def interpolate_suite(chk, w, rule, nmax, orders=(1, 2, 3), ns=None, fixed=True)
             cs.expect(fd, "default boundaries: lowest derivatives set to zero, alternating first / last node",
                       dict(order=order), o, ok, str([("FIRST" if a == FIRST else "LAST", b) for a, b in want]))
     return cs.flush()
+
+
+def generator_support_suite(chk, w, rule, maxlen, orders=(0, 1, 2, 3), ns=None, fixed=True):
+    """Structural clauses of C01: count m-p-1; the i-th function is supported exactly on the knot span
+    [t_i, t_{i+p+1}] (it may store zeros elsewhere; it must not vanish identically on a positive-width part of the
+    span); the result does not depend on the construction route (knots alone / knots + equal grid object)."""
+    cs = Cases(chk, rule, w)
+    GEN = "bspline::BSplineGenerator<%s>" % w.T
+    c1 = w.ctor(GEN, lambda d: len(d["params"]) == 1 and d["params"][0]["type"].startswith("std::vector<"), "knots")
+    c2 = w.ctor(GEN, lambda d: len(d["params"]) == 2 and d["params"][0]["type"].startswith("std::vector<"),
+                "knots, grid")
+    w.I.allow_const_scaling = True
+    values = [0, 2, 4, 6, 8]
+    for L in _ns(2, maxlen, ns):
+        # all non-decreasing sequences (multiplicity patterns) of length L over at most 5 distinct values
+        for seq in itertools.combinations_with_replacement(values, L):
+            distinct = sorted(set(seq))
+            if len(distinct) < 2 or distinct != values[:len(distinct)]:
+                continue   # canonical representatives: the distinct values are 0,2,4,... (order type of the knots)
+            knots = [Sc(x) for x in seq]
+            o = w.run(lambda: w.I.construct(c1, [box(Vec(list(knots)))]), "BSplineGenerator(knots)")
+            if o.kind != "val":
+                continue   # acceptance is C11's business
+            gen = o.v
+            g2 = w.mk_grid([Sc(x) for x in distinct])
+            gen2 = w.run(lambda: w.I.construct(c2, [box(Vec(list(knots))), box(g2.v)]),
+                         "BSplineGenerator(knots, grid)") if g2.kind == "val" else None
+            idx = {v_: i for i, v_ in enumerate(distinct)}
+            for p in orders:
+                if L < p + 2:
+                    continue
+                fg = w.method(GEN, "generateBSplines", 0, pred=lambda d, p=p: ("Spline<%s, %d>" % (w.T, p)) in
+                              d["rtype"], required=False)
+                if fg is None:
+                    continue
+                case = dict(knots=list(seq), order=p)
+                r = w.call(fg, gen, [])
+                ok = r.kind == "val" and isinstance(val(r.v), Vec) and len(val(r.v).items) == L - p - 1
+                cs.expect(fg, "generateBSplines<p> returns exactly m-p-1 functions", case, r, ok, str(L - p - 1))
+                if not ok:
+                    continue
+                fns = val(r.v).items
+                for i, sp in enumerate(fns):
+                    lo, hi = idx[seq[i]], idx[seq[i + p + 1]]      # grid indices of t_i and t_{i+p+1}
+                    view = spline_view(w, sp)
+                    okv, why = valid_spline(w, sp, len(distinct))
+                    good = okv and view is not None
+                    if good:
+                        (s0, e0), table, _, _ = view
+                        for I in range(len(distinct) - 1):
+                            arr = table.get(I)
+                            inside = lo <= I < hi
+                            if not inside and arr is not None and not all(isinstance(x, Sc) and x.v == 0 for x in arr):
+                                good, why = False, "function %d does not vanish on interval %d outside its knot span " \
+                                                   "[%d,%d]" % (i, I, lo, hi)
+                            if inside and (arr is None or all(isinstance(x, Sc) and x.v == 0 for x in arr)):
+                                good, why = False, "function %d vanishes identically on interval %d inside its knot " \
+                                                   "span [%d,%d]" % (i, I, lo, hi)
+                    cs.expect(fg, "the i-th function is supported exactly on the knot span [t_i, t_{i+p+1}] (grid "
+                                  "intervals of positive width; zero elsewhere; interval-free if the span has no width)",
+                              dict(case, i=i), r, good, "support = grid window [%d,%d] (%s)" % (lo, hi, why))
+                if gen2 is not None and gen2.kind == "val":
+                    r2 = w.call(fg, gen2.v, [])
+                    same = r2.kind == "val" and isinstance(val(r2.v), Vec) and len(val(r2.v).items) == len(fns)
+                    if same:
+                        for a_, b_ in zip(fns, val(r2.v).items):
+                            va, vb = spline_view(w, a_), spline_view(w, b_)
+                            if va is None or vb is None or va[0] != vb[0] or va[2] != vb[2]:
+                                same = False
+                                break
+                            for I, arr in va[1].items():
+                                brr = vb[1].get(I)
+                                if brr is None or [x.v for x in arr] != [x.v for x in brr]:
+                                    same = False
+                    cs.expect(fg, "both construction routes (knots alone / knots plus an equal grid object) give the "
+                                  "same functions", case, r2, same, "identical supports and coefficients")
+    return cs.flush()
